@@ -30,13 +30,17 @@ def main():
     res = {"property": pid, "verified_at": time.strftime("%Y-%m-%dT%H:%M:%SZ", time.gmtime())}
     try:
         sh(f"git -C /repo archive HEAD lib | tar -x -C {d}")
+        env = dict(os.environ)
+        # baseline: the demo on the clean export (pure-Python modules, as in the seeding agent's worktree)
+        r0 = sh(["/venv/bin/python", f"{out_dir}/demo.py"], env=dict(env, PYTHONPATH=f"{d}/lib"), timeout=900)
+        if "--with-so" in a or pid == "C55":
+            # C55 compares the prebuilt compiled extensions with the (patched) pure-Python modules: keep the .so files beside them
+            sh(f"cd /repo/lib && find . -name '*.so' -exec cp --parents {{}} {d}/lib/ \\;")
         r = sh(f"cd {d} && git init -q . && git apply --whitespace=nowarn {out_dir}/patch.diff")
         res["patch_applies_to_head"] = r.returncode == 0
         if r.returncode != 0:
             print("patch does not apply:", r.stderr[:500])
-        env = dict(os.environ)
-        r1 = sh(["/venv/bin/python", f"{out_dir}/demo.py"], env=dict(env, PYTHONPATH=f"{d}/lib"), timeout=900)
-        r0 = sh(["/venv/bin/python", f"{out_dir}/demo.py"], env=dict(env, PYTHONPATH="/repo/lib"), timeout=900)
+        r1 = sh(["/venv/bin/python", f"{out_dir}/demo.py"], env=dict(env, PYTHONPATH=f"{d}/lib", DISABLE_SQLALCHEMY_CEXT_RUNTIME="1"), timeout=900)
         res["demo_exit_with_patch"] = r1.returncode
         res["demo_exit_without_patch"] = r0.returncode
         res["demo_output_with_patch"] = (r1.stdout + r1.stderr)[-600:]
